@@ -127,20 +127,23 @@ def run(cx):
         # ---------------------------------------------------------------- resample_at_positions
         b = cx.fn(f'{mod}::resample_at_positions')
         if b:
-            pushes = b.calls('Vec::push')
-            okp = len(pushes) == 1
-            if okp:
-                v = cx.arg(pushes[0], 1)
-                okp = match(f'(field point (unwrap (call *{C}::at_length (param curve) (itervar (param positions)))))', v) is not None or \
-                    match(f'(call *::point (unwrap (call *{C}::at_length (param curve) (itervar (param positions)))))', v) is not None
+            # the rebuilt point list as a comprehension over `positions` (a push loop or a map/collect chain alike)
+            from vpa import comp as CMP
+            r0 = cx.retval(b)
+            ep = find(f'(call *{C}::from_points $pts ...)', r0)
+            comps = [c for c in CMP.comprehensions(cx, b, ep[1]['pts']) if c.get('elem') is not None] if ep else []
+            POS = '(index (param positions) (itervar (range 0 (len (param positions)))))'
+            okp = len(comps) == 1 and match('(param positions)', comps[0]['src']) is not None and (
+                match(f'(field point (unwrap (call *{C}::at_length (param curve) {POS})))', comps[0]['elem']) is not None or
+                match(f'(call *::point (unwrap (call *{C}::at_length (param curve) {POS})))', comps[0]['elem']) is not None)
             cx.ob('EXPR', f'{C}::resample_at_positions:points', okp, 'point k of the result is at_length(positions[k]).point, in order (on the source curve by construction)', where=b.file)
-            # every position yields a point: the push is on every cycle of the loop and a position off the curve fails loudly
-            # (Option::unwrap) instead of being skipped silently
-            oku = False
-            if len(pushes) == 1:
-                lps = [lp for lp in b.loops() if pushes[0].bb in lp[1]]
-                uw = [u for u in b.calls('Option::unwrap|Option::expect') if match(f'(call *{C}::at_length (param curve) _)', cx.arg(u, 0)) is not None]
-                oku = len(lps) == 1 and all(b.dominates(pushes[0].bb, x) for x in lps[0][2]) and len(uw) == 1 and b.dominates(uw[0].bb, pushes[0].bb)
+            # every position yields a point: nothing filters the positions, and a position off the curve fails loudly (Option::unwrap)
+            # instead of being skipped silently
+            oku = len(comps) == 1 and not comps[0]['conds'] and okp
+            if oku and comps[0]['form'] == 'loop':
+                pushes = b.calls('Vec::push')
+                lps = [lp for lp in b.loops() if pushes and pushes[0].bb in lp[1]]
+                oku = len(pushes) == 1 and len(lps) == 1 and all(b.dominates(pushes[0].bb, x) for x in lps[0][2])
             cx.ob('ORDER', f'{C}::resample_at_positions:every-position', oku,
                   'every requested position produces exactly one vertex (unconditional push, at_length(..).unwrap()): a position that misses the curve cannot be dropped silently', where=b.file)
             r = cx.retval(b)
@@ -267,14 +270,14 @@ def run(cx):
               found='; '.join(show(d)[:160] for d in devs))
     b = cx.fn('common::points::Rdp::generate_points')
     if b:
-        from vpa import comp as CP
-        comps = [c for c in CP.comprehensions(cx, b, cx.retval(b)) if c.get('elem') is not None]
+        from vpa import comp as CMP
+        comps = [c for c in CMP.comprehensions(cx, b, cx.retval(b)) if c.get('elem') is not None]
         ok = len(comps) == 1
         if ok:
             c = comps[0]
             I = '(itervar (range 0 (len (self points))))'
             ok = match('(self points)', c['src']) is not None and match(f'(index (self points) {I})', c['elem']) is not None and \
-                CP.has_cond(c, f'(index (self keep) {I})', True) and len(c['conds']) == 1
+                CMP.has_cond(c, f'(index (self keep) {I})', True) and len(c['conds']) == 1
         cx.ob('EXPR', 'Rdp::generate_points:subsequence', ok, 'the output is points[i] for ascending i filtered by keep[i]: a subsequence of the input', where=b.file)
     b = cx.fn('common::points::ramer_douglas_peucker')
     if b:
